@@ -12,17 +12,22 @@ GOOD = {
     'charset': ['@charset "utf-8";', '@charset "ascii";'],
     'import': ['@import "i1.css";', '@import url(i2.css) print, tv;', '@import "i3.css" screen "nm";'],
     'namespace': ['@namespace p "http://p";', '@namespace "http://d";', '@namespace q url(http://q);'],
-    'variables': ['@variables { c: red; w: 1px }'],
-    'fontface': ['@font-face { font-family: x; src: url(a.ttf) }'],
+    'variables': ['@variables { c: red; w: 1px }', '@variables { C\\olor: red; \\77 : 1px; W2: 2px }'],
+    'fontface': ['@font-face { font-family: x; src: url(a.ttf) }', '@FONT-face { FONT-f\\amily: y; s\\72 c: url(b.ttf) }'],
     'media': ['@media print { a { top: 0 } b { left: 1px } }', '@media screen, tv { /*c*/ e { color: red } }',
-              '@media all { @page { margin: 0 } x { top: 1px } }'],
+              '@media all { @page { margin: 0 } x { top: 1px } }',
+              '@media PR\\int, T\\56 { \\61 { t\\op: 0 } }', '@media ONLY SCR\\65 en AND (MIN-width: 1px) { a { top: 0 } }'],
     'page': ['@page :first { margin: 1cm; @top-left { content: "x" } }', '@page { margin: 0 }',
-             '@page nm:left { @bottom-center { color: red } margin: 2px }'],
+             '@page nm:left { @bottom-center { color: red } margin: 2px }',
+             '@page N\\6d:FIRST { m\\argin: 1px; @TOP-l\\65 ft { c\\olor: red } }'],
     'style': ['a, b > c { color: red; top: 0 !important }', 'p|x { left: 0 }', '.k #i[a="b"] { color: #fff; '
               'background: url(x.png) no-repeat; margin: 1px 2px }', 'h1:hover::first-line { font: 12px/1.5 "A", serif }',
-              '*|y { color: rgb(1, 2, 3); width: calc(1px + 2px) }'],
+              '*|y { color: rgb(1, 2, 3); width: calc(1px + 2px) }',
+              # names whose literal spelling differs from the normalised one (simple escape, hex escape, upper case)
+              'D\\iv > sp\\61 n, \\61 b { c\\olor: red; T\\op: 1px; \\6c eft: 2px !IMPORTANT; COLOR: blue }',
+              'H1.K\\6c s { BACK\\ground: URL(x.png); c\\olor: RED !important }'],
     'comment': ['/* c */'],
-    'unknown': ['@foo bar { x: y }', '@foo "x";'],
+    'unknown': ['@foo bar { x: y }', '@foo "x";', '@F\\6fo B\\ar;'],
 }
 # parts that are rejected (in raising mode) — by where they may stand
 BAD_RULES = ['$$$ {', 'a { color: }', '} }', 'a { top: 0 } }', 'zz|a { top: 0 }', 'a {{ }', 'a { top }',
@@ -92,7 +97,7 @@ def sheet_text(rng, rich=True):
             ns.append(pick(rng, ['@namespace "http://d";', '@namespace q url(http://q);', '@namespace r "http://p";']))
     parts += ns
     if rng.random() < 0.5:
-        parts.append(GOOD['variables'][0])
+        parts.append(pick(rng, GOOD['variables']))
     n = rng.randrange(1, 6)
     for _ in range(n):
         r = good_rule(rng)
